@@ -59,13 +59,31 @@ def is_ws(ch):
     return unicodedata.category(ch) == 'Zs'
 
 
+_OLD = unicodedata.ucd_3_2_0
+# BMP letters that Unicode 3.1 / 3.2 added: ES5 requires Unicode 3.0 "or
+# later", so engines may or may not know them
+_ADDED_AFTER_3_0 = (
+    (0x220, 0x220), (0x3D8, 0x3D9), (0x3F4, 0x3F6), (0x48A, 0x48B),
+    (0x4C5, 0x4C6), (0x4C9, 0x4CA), (0x4CD, 0x4CE), (0x500, 0x52F),
+    (0x7B1, 0x7B1), (0x10F7, 0x10F8), (0x1700, 0x177F), (0x17D7, 0x17DD),
+    (0x2071, 0x2071), (0x3095, 0x3096), (0x309F, 0x30A0), (0x30FF, 0x30FF),
+    (0x31F0, 0x31FF), (0xFA30, 0xFA6A), (0xFE00, 0xFE0F), (0xFE45, 0xFE46),
+    (0xFE73, 0xFE73), (0xFF5F, 0xFF60), (0x34F, 0x34F), (0x363, 0x36F),
+    (0x2047, 0x2047), (0x204E, 0x2052), (0x2057, 0x2057), (0x205F, 0x2063),
+)
+
+
 def _stable_nonascii(ch):
+    """the general category of ch is the same in Unicode 3.2 and in the
+    Unicode version of this interpreter, ch is in the BMP and was not added
+    by Unicode 3.1 / 3.2: every ES5 engine classifies it alike"""
     o = ord(ch)
-    # ranges whose general category has been stable since Unicode 3.0
-    return (0xC0 <= o <= 0x24F and ch not in '\xd7\xf7') or \
-        0x370 <= o <= 0x3FF and unicodedata.category(ch)[0] == 'L' or \
-        0x400 <= o <= 0x44F or 0x4E00 <= o <= 0x9FA5 or \
-        0x300 <= o <= 0x36F or o in (0x203F, 0x2040, 0x0660, 0x200c, 0x200d)
+    if o > 0xFFFF or ch in '\xd7\xf7':
+        return False
+    if any(a <= o <= b for a, b in _ADDED_AFTER_3_0):
+        return False
+    old = _OLD.category(ch)
+    return old != 'Cn' and old == unicodedata.category(ch)
 
 
 # Other_ID_Start / Other_ID_Continue: identifier characters from ES2015 on,
